@@ -139,8 +139,12 @@ func (c *Check) Finish(cov Coverage) int {
 		ev["assumptions"] = []string{}
 	}
 	b, _ := json.MarshalIndent(ev, "", " ")
-	os.MkdirAll(filepath.Join(VerifDir, "evidence"), 0755)
-	if err := os.WriteFile(filepath.Join(VerifDir, "evidence", c.ID+".json"), b, 0644); err != nil {
+	evDir := filepath.Join(VerifDir, "evidence")
+	if d := os.Getenv("VERIF_EVIDENCE_DIR"); d != "" {
+		evDir = d // trials of seeded changes must not overwrite the evidence of the real tree
+	}
+	os.MkdirAll(evDir, 0755)
+	if err := os.WriteFile(filepath.Join(evDir, c.ID+".json"), b, 0644); err != nil {
 		fmt.Fprintln(os.Stderr, "cannot write evidence:", err)
 		return 2
 	}
@@ -165,6 +169,9 @@ func (c *Check) writeReplay(v *violation) string {
 	h := sha256.Sum256([]byte(v.Sig))
 	name := fmt.Sprintf("%s-%s.json", c.ID, hex.EncodeToString(h[:6]))
 	dir := filepath.Join(VerifDir, "replays")
+	if d := os.Getenv("VERIF_EVIDENCE_DIR"); d != "" {
+		dir = filepath.Join(d, "replays")
+	}
 	os.MkdirAll(dir, 0755)
 	path := filepath.Join(dir, name)
 	b, _ := json.MarshalIndent(map[string]interface{}{
